@@ -135,7 +135,7 @@ ROOT_ROWS = ["accept", "version", "old_rule", "new_rule", "type", "new_malformed
              "noisy_reject"]
 DELEG_KINDS = ["ok", "below", "wrongkey", "type_mismatch", "unknown_role", "junk", "edited", "ok", "signatures_list", "trusted_not_delegating",
                "trusted_malformed", "untrusted_extra_envelope_field", "openpgp_signed_nonroot", "mixed_raw_and_openpgp"]
-CROSS = ["root_under_nonroot_with_root_role", "keymgr_under_keymgr", "root_raw_signed_under_root"]
+CROSS = ["root_under_nonroot_with_root_role", "keymgr_under_keymgr", "root_raw_signed_under_root", "nonstring_type_with_role_named_like_it"]
 MALFORMED = ["huge_valid_accept", "valid_prefix_then_padding_then_junk", "huge_valid_reject", "untrusted_not_json", "trusted_not_json", "untrusted_list", "untrusted_scalar", "no_signed", "no_type", "type_not_str",
              "missing_untrusted", "missing_trusted", "empty_file", "swapped", "trusted_is_payload"]
 CLASSES = [("root", x) for x in ROOT_ROWS] + [("deleg", x) for x in DELEG_KINDS] + [("cross", x) for x in CROSS] + [("malformed", x) for x in MALFORMED]
@@ -211,6 +211,14 @@ def gen_pair(rng, cls=None):
         if which == "root_under_nonroot_with_root_role":
             trusted = gmd.envelope(gmd.delegating("key_mgr", {"root": gmd.delegation(ks, 1), "pkg_mgr": gmd.delegation([U[6]], 1)}))
             env = gmd.sign_env(gmd.envelope(gmd.root_md(2, ks, 1, [U[6]], 1)), ks, False, rng)
+        elif which == "nonstring_type_with_role_named_like_it":
+            # the untrusted file declares a type that is not a string (null, a number, true, a list); the trusted file delegates to a
+            # role whose NAME is what str() / repr() / json would make of that value, and that role's key has validly signed the file.
+            # The library's verdict for the dispatch (role = the declared type as it is) decides - there is no role 7, only a role "7"
+            tv, names = rng.choice([(None, ["None", "null", ""]), (7, ["7"]), (True, ["True", "true", "1"]), (1.5, ["1.5"]), (0, ["0", "False"]),
+                                    (["root"], ["['root']", "root"]), ({"a": 1}, ["{'a': 1}"])])
+            trusted = gmd.envelope(gmd.delegating("key_mgr", dict({n: gmd.delegation(ks, 1) for n in names}, pkg_mgr=gmd.delegation([U[6]], 1))))
+            env = gmd.sign_env(gmd.envelope({"type": tv, "payload": [1, 2, 3]}), ks, False, rng)
         elif which == "keymgr_under_keymgr":
             trusted = gmd.envelope(gmd.delegating("key_mgr", {"key_mgr": gmd.delegation(ks, 1)}))
             env = gmd.sign_env(gmd.envelope(gmd.delegating("key_mgr", {})), ks[:1], False, rng)
